@@ -413,10 +413,20 @@ fn run(ctx: &mut Ctx) {
                 refuse(ctx, "files of different runs", a);
             }
             1 => {
-                let dup = mk("dup_t0.mid.lz4", run_number, files[rng.usize(nfiles)].t0);
+                let j = rng.usize(nfiles);
+                let dup = mk("dup_t0.mid.lz4", run_number, files[j].t0);
                 let mut a = paths.clone();
                 a.insert(rng.usize(a.len() + 1), dup);
                 refuse(ctx, "duplicate initial timestamp", a);
+                // a duplicate whose final timestamp equals its initial one (no gap / overlap can hide it),
+                // placed first, last and far from its twin on the command line
+                let p = dir.join("dup_short.mid");
+                midas::write(&p, &midas::file_bytes(run_number, files[j].t0, files[j].t0, &[]));
+                for pos in [0usize, paths.len(), (j + 2) % (paths.len() + 1)] {
+                    let mut a = paths.clone();
+                    a.insert(pos, p.clone());
+                    refuse(ctx, "duplicate initial timestamp (zero-length twin)", a);
+                }
             }
             2 => {
                 let p = dir.join("notes.txt");
